@@ -163,6 +163,7 @@ def check_case(case):
     for p in rel:
         problems.append(dict(signature=dict(monitor="text-relation", event=p["event"]), detail=p))
     # lock-step execution
+    notrig = None
     if not problems:
         lits = H.literals(src)
         line2idx = {}
@@ -196,6 +197,22 @@ def check_case(case):
             if verdict == "differ":
                 problems.append(dict(signature=dict(monitor="lock-step", event="effects-differ:" + info["kind"]), detail=dict(info=info, env=es)))
                 break
+            # "it is the location of the construct it was generated for": the labelled run against the source's own
+            # control flow (reference interpreter) - only for sources in which no known-finding trigger holds, so that
+            # every difference is new
+            if notrig is None:
+                notrig = not (triggers_of(src) + label_triggers(src))
+            if notrig and not va["events"]:
+                main_src = src if isinstance(src, str) else src.get("", "")
+                mods_only = None if isinstance(src, str) else {k: v for k, v in src.items() if k}
+                mk = lambda perturb=False: H.run_ref(main_src, es, lits, modules=mods_only, perturb=perturb, max_steps=20000, max_effects=80)
+                ref = mk()
+                if ref["status"] != "not-judged":
+                    cnt["ref_runs"] = cnt.get("ref_runs", 0) + 1
+                    v2, i2, _c = H.compare_conditioned(va, ref, "labelled", "source", ref, lambda: mk(True))
+                    if v2 == "differ":
+                        problems.append(dict(signature=dict(monitor="source-trace", event="jump-lands-elsewhere:" + i2["kind"]), detail=dict(info=i2, env=es)))
+                        break
     if problems:
         trig = triggers_of(src) + label_triggers(src)
         for p in problems:
